@@ -11,7 +11,7 @@ from ..solver_common import MODE, common_labels, prescribed_root_of, reference, 
 ID = "C05"
 LEVEL = "exploration"
 LEVEL_TEXT = (
-    "Random search against the COMPLETE optimal set produced by independent enumeration: for thl, exh, base/ext_spfs, base_uspfs and "
+    "Bounded-exhaustive (all inputs <=4x3 / <=3x3 leaves with <=2 families, rotating cost grid) plus random search against the COMPLETE optimal set produced by independent enumeration: for thl, exh, base/ext_spfs, base_uspfs and "
     "superdtl the ALL result must equal that set as a multiset (nothing missing, nothing extra, no repeats), ANY must return one member, "
     "all costs equal, empty only without a solution; bounds <=5-6 object leaves, <=4 species leaves, <=4 families, costs <=3."
 )
@@ -20,10 +20,10 @@ LEVEL_NOTE = (
     "Unordered solvers are compared with the canonical-labelling optimal set, as the property states, and only on cases where the canonical "
     "optimum equals the all-labellings optimum (otherwise the case belongs to C03)."
 )
-TECHNIQUE = "property-based testing: Hypothesis random inputs, ALL/ANY results vs complete optimal set of a brute-force oracle"
+TECHNIQUE = "property-based testing: bounded-exhaustive + Hypothesis random inputs, ALL/ANY results vs complete optimal set of a brute-force oracle"
 DESIGN_REF = "DESIGN.md section 5 (C05)"
 RULE = (
-    "Hypothesis cases as in C01-C03 (group plain: <=5 object/<=5 species leaves; ordered: <=5/<=4, <=4 families, consistent or not, optional "
+    "Bounded-exhaustive layer (see exhaustive_layer) + Hypothesis cases as in C01-C03 (group plain: <=5 object/<=5 species leaves; ordered: <=5/<=4, <=4 families, consistent or not, optional "
     "prescribed root; plain inputs have unnamed ancestral nodes in half of the cases (solutions then read by clades); unordered: <=6/<=4, <=4 families; one more leaf on each side in the thorough tier), coherent costs.  Checked per algorithm of the group: canonical(ALL) has no repeats and "
     "equals the oracle's complete optimal set; ANY returns exactly one solution, member of that set; every returned solution valid with cost == "
     "optimum; empty iff the oracle has no solution.  Non-trivial: the optimal set has >=2 members (ties) and the object tree >=3 leaves; "
@@ -35,6 +35,14 @@ ASSUMPTIONS = [
     "unordered: canonical labellings only (required content, or parent's content plus own gains), as stated by the property",
 ]
 BUDGET = {"quick": {"random": 4000}, "thorough": {"random": 60000}}
+
+EXHAUSTIVE_RULE = {
+    "quick": "plain: every plane binary shape object<=4 x species<=3 leaves x leaf assignment with 2 of the 69 cost vectors of {0,1,2}^3 x hgt {0,1,inf} inside "
+             "the region; ordered / unordered: object<=3 x species<=3 leaves x every leaf synteny assignment over <=2 families with 2 of the 141 vectors "
+             "of {0,1,2}^4 x hgt {0,1,inf} (rotating residues, offset from those of C02/C03)",
+    "thorough": "the same inputs with 12 / 24 / 24 cost vectors each",
+}
+EXHAUSTIVE_COMPLETE = False  # the random layer is not exhaustive
 
 GROUPS = {
     "plain": ("thl", "exh"),
@@ -60,6 +68,32 @@ def _case(draw, big=False):
 
 def strategy(tier):
     return _case(big=(tier == "thorough"))
+
+
+def exhaustive(tier):
+    mod = 32 if tier == "quick" else 64
+    rep = 1 if tier == "quick" else 12
+    return [(g, i, mod, rep) for g in ("plain", "ordered", "unordered") for i in range(mod)]
+
+
+def run_job(job):
+    group, idx, mod, rep = job
+    labelled = group != "plain"
+    grid = list(gen.cost_grid((0, 1, 2), (0, 1, gen.INF), labelled=labelled))
+    if group == "plain":
+        inputs = gen.all_inputs(4, 3)
+        per = 2 if rep == 1 else 12
+    else:
+        inputs = gen.all_labelled_inputs(3, 3, 2, ordered=(group == "ordered"))
+        per = 2 if rep == 1 else 24
+    for k, base in enumerate(inputs):
+        if k % mod != idx:
+            continue
+        for t in range(per):
+            case = dict(base)
+            case["costs"] = grid[(k * 11 + 3 + t * (len(grid) // per)) % len(grid)]
+            case["_group"] = group
+            yield case
 
 
 def check(case):
